@@ -440,7 +440,7 @@ impl<T: Float + std::ops::AddAssign> Categorical<T> {
     }
 }
 
-#[cfg(feature = "verif")]
+#[cfg(feature = "verif-hooks")]
 impl<T: Float + std::ops::AddAssign> Categorical<T> {
     /// Verification hook: a categorical distribution whose generator is supplied by the caller,
     /// so that a replay can fix the uniform variate `sample` consumes.
